@@ -347,6 +347,10 @@ static lp_id_t get_neighbor_star(lp_id_t from, struct topology *topology, enum t
 		return INVALID_DIRECTION;
 	}
 
+	// Corner case: the center of a star with no leaves has no neighbor
+	if(from == 0 && topology->regions == 1)
+		return INVALID_DIRECTION;
+
 	if(from == 0)
 		return RandomRange(1, (int)(topology->regions - 1));
 	return 0;
